@@ -19,7 +19,7 @@ from ..simnet import World
 
 P = "C20"
 RETRYABLE = ("ConnectError", "ConnectTimeout")
-OTHERS = ("ReadError", "WriteTimeout", "Undocumented", "Interrupt")
+OTHERS = ("ReadError", "WriteTimeout", "Undocumented", "Interrupt", "ConnectionResetError", "SSLCertVerificationError")
 DELAYS = [0, 0.5, 1, 2, 4, 8, 16]
 
 
@@ -226,7 +226,7 @@ def _quick_cases(tier):
 
 
 RULE = ("retries N in 0..4 x {tcp, unix socket} x {plain, TLS} x outcome sequence of length <= N+2 over {ok, ConnectError, "
-        "ConnectTimeout, ReadError, WriteTimeout, undocumented Exception, BaseException} at the connect or TLS stage "
+        "ConnectTimeout, ReadError, WriteTimeout, undocumented Exception, BaseException, ConnectionResetError, ssl.SSLCertVerificationError} at the connect or TLS stage "
         "(enumerated as: every run of retryable outcomes followed by every terminal outcome) x fault during the exchange "
         "after establishment; each case runs the sync and the async pool. Non-trivial: at least one retry, or a TLS-stage "
         "failure, or an exchange fault; distinct = distinct case.")
